@@ -89,7 +89,12 @@ class PrecipitationStoppingCondition:
                 if model.pData.n > 0:
                     currVal, currTime = self._poll(model, model.pData.n), model.pData.time[model.pData.n]
                     prevVal, prevTime = self._poll(model, model.pData.n-1), model.pData.time[model.pData.n-1]
-                    self._satisfiedTime = (currTime - prevTime) * (self._value - prevVal) / (currVal - prevVal) + prevTime
+                    prevSatisfied = prevVal > self._value if self._condition == Inequality.GREATER_THAN else prevVal < self._value
+                    if prevSatisfied:
+                        #Condition already held at the start of this step (no crossing to interpolate to)
+                        self._satisfiedTime = prevTime
+                    else:
+                        self._satisfiedTime = (currTime - prevTime) * (self._value - prevVal) / (currVal - prevVal) + prevTime
                 else:
                     self._satisfiedTime = model.pData.time[model.pData.n]
 
